@@ -91,7 +91,11 @@ func run(f propFunc, r *Report, repo, tier, prop string) (code int) {
 	}()
 	configs := []string{""}
 	if tier == "thorough" {
-		configs = append(configs, propConfigs[prop]...)
+		extra, ok := propConfigs[prop]
+		if !ok {
+			extra = []string{"386", "arm64"} // every rule is repeated for a 32-bit and a second 64-bit configuration
+		}
+		configs = append(configs, extra...)
 	}
 	for _, cfg := range configs {
 		p, err := Load(repo, cfg)
